@@ -136,7 +136,7 @@ func Discharge(vcs []*VC, extra func(*VC) []*smt.Term, o DischargeOpts) []Verdic
 				gets = append(gets, r.V)
 			}
 			// kernel-lemma abstraction first; a model found under it is confirmed on the exact query
-			abs, nAbs := smt.AbstractKernels(as)
+			abs, nAbs := smt.AbstractKernels(as, true)
 			var a smt.Answer
 			final := as
 			if nAbs > 0 {
@@ -145,6 +145,9 @@ func Discharge(vcs []*VC, extra func(*VC) []*smt.Term, o DischargeOpts) []Verdic
 				be, to := pickBackend(o, abs)
 				a = solvePortfolio(be, abs, nil, to, o)
 				if a.Res != smt.Unsat {
+					if os.Getenv("FGSYM_DEBUG") != "" {
+						fmt.Fprintf(os.Stderr, "  abstraction of %s/%s (%d kernels) answered %s in %.1fs (%s); asking the exact query\n", vc.Harness, vc.Label, nAbs, a.Res, a.Seconds, a.File)
+					}
 					be, to = pickBackend(o, as)
 					b := solvePortfolio(be, as, gets, to, o)
 					b.Seconds += a.Seconds
@@ -217,18 +220,83 @@ func firstLines(s string, n int) string {
 }
 
 // SolvePath finds a model of a completed path (reachability witness / translator validation).
-func SolvePath(p PathEnd, o DischargeOpts) (smt.Result, map[string]*smt.Term, []*smt.Term) {
-	var gets []*smt.Term
-	gets = append(gets, p.Nondets...)
-	for _, r := range p.Recs {
-		gets = append(gets, r.V)
-	}
+// It first tries the kernel-abstracted path condition (much cheaper); a model found there is
+// accepted only if the exact path condition evaluates to true under it (concrete evaluation by
+// constant folding), otherwise the exact query is asked.
+func SolvePath(p PathEnd, o DischargeOpts, allowExact bool) (smt.Result, map[string]*smt.Term, []*smt.Term) {
 	as := p.PC
 	if len(as) == 0 {
 		as = []*smt.Term{smt.True}
 	}
+	finish := func(model map[string]*smt.Term) (smt.Result, map[string]*smt.Term, []*smt.Term) {
+		memo := map[int]*smt.Term{}
+		recs := make([]*smt.Term, len(p.Recs))
+		for i, r := range p.Recs {
+			recs[i] = smt.Subst(r.V, model, memo)
+			if !recs[i].IsConst() {
+				return smt.Unknown, nil, nil
+			}
+		}
+		return smt.Sat, model, recs
+	}
+	if abs, n := smt.AbstractKernels(as, false); n > 0 {
+		// Abstract model first; then fix the variables feeding the kernels to the abstract
+		// model's values (the kernels fold to constants) and solve the exact path condition for
+		// the remaining variables. Up to three abstract models are tried.
+		kvars := smt.KernelInputVars(as)
+		block := []*smt.Term{}
+		for attempt := 0; attempt < 3; attempt++ {
+			be, to := pickBackend(o, abs)
+			a := solvePortfolio(be, append(append([]*smt.Term(nil), abs...), block...), p.Nondets, to, o)
+			if os.Getenv("FGSYM_DEBUG") != "" {
+				fmt.Fprintf(os.Stderr, "  witness: abstract query %s in %.1fs\n", a.Res, a.Seconds)
+			}
+			if a.Res == smt.Unsat && attempt == 0 {
+				return smt.Unsat, nil, nil // the abstraction over-approximates: the exact path is infeasible too
+			}
+			if a.Res != smt.Sat {
+				break
+			}
+			m := map[string]*smt.Term{}
+			for j, nd := range p.Nondets {
+				m[nd.Name] = a.Values[j]
+			}
+			fix := map[string]*smt.Term{}
+			var blk []*smt.Term
+			for _, kv := range kvars {
+				if v, ok := m[kv.Name]; ok {
+					fix[kv.Name] = v
+					blk = append(blk, smt.Eq(kv, v))
+				}
+			}
+			memo := map[int]*smt.Term{}
+			conc := make([]*smt.Term, 0, len(as)+len(blk))
+			for _, c := range as {
+				conc = append(conc, smt.Subst(c, fix, memo))
+			}
+			be2, to2 := pickBackend(o, conc)
+			b := solvePortfolio(be2, conc, p.Nondets, to2, o)
+			if os.Getenv("FGSYM_DEBUG") != "" {
+				fmt.Fprintf(os.Stderr, "  witness: concretised query %s in %.1fs (%d kernel vars fixed)\n", b.Res, b.Seconds, len(fix))
+			}
+			if b.Res == smt.Sat {
+				m2 := map[string]*smt.Term{}
+				for j, nd := range p.Nondets {
+					m2[nd.Name] = b.Values[j]
+				}
+				for k, v := range fix {
+					m2[k] = v
+				}
+				return finish(m2)
+			}
+			block = append(block, smt.Not(smt.And(blk...)))
+		}
+		if !allowExact {
+			return smt.Unknown, nil, nil
+		}
+	}
 	be, to := pickBackend(o, as)
-	a := solvePortfolio(be, as, gets, to, o)
+	a := solvePortfolio(be, as, p.Nondets, to, o)
 	if a.Res != smt.Sat {
 		return a.Res, nil, nil
 	}
@@ -236,7 +304,7 @@ func SolvePath(p PathEnd, o DischargeOpts) (smt.Result, map[string]*smt.Term, []
 	for j, n := range p.Nondets {
 		m[n.Name] = a.Values[j]
 	}
-	return a.Res, m, a.Values[len(p.Nondets):]
+	return finish(m)
 }
 
 func SortedKeys(m map[string]bool) []string {
@@ -246,4 +314,64 @@ func SortedKeys(m map[string]bool) []string {
 	}
 	sort.Strings(out)
 	return out
+}
+
+// GuessInputs returns an input assignment aimed at the given path: a model of the
+// kernel-abstracted path condition when kernels occur (cheap, possibly not following exactly that
+// path), else a model of the exact path condition.
+func GuessInputs(p PathEnd, o DischargeOpts) (map[string]*smt.Term, bool) {
+	as := p.PC
+	if len(as) == 0 {
+		as = []*smt.Term{smt.True}
+	}
+	q := as
+	if abs, n := smt.AbstractKernels(as, false); n > 0 {
+		q = abs
+	}
+	be, to := pickBackend(o, q)
+	a := solvePortfolio(be, q, p.Nondets, to, o)
+	if a.Res != smt.Sat {
+		return nil, false
+	}
+	m := map[string]*smt.Term{}
+	for j, nd := range p.Nondets {
+		m[nd.Name] = a.Values[j]
+	}
+	return m, true
+}
+
+// ConcreteTrace is the result of running a harness in the interpreter on fixed inputs.
+type ConcreteTrace struct {
+	Completed  bool // reached the end of the harness
+	AssumeFail bool // an assumption was false: no path
+	Panic      string
+	Failed     []string // assertion labels that evaluate to false
+	Recs       []Record
+	Aborted    string
+}
+
+// RunConcrete interprets the harness on fixed inputs (concolic replay of the encoding).
+func (e *Engine) RunConcrete(fn *ssa.Function, in *ConcreteInputs) ConcreteTrace {
+	saveVCs, saveMerge := e.VCs, e.Cfg.Merge
+	e.Concrete = in
+	defer func() { e.Concrete = nil; e.VCs = saveVCs; e.Cfg.Merge = saveMerge }()
+	res := e.RunHarness(fn)
+	tr := ConcreteTrace{Aborted: res.Aborted}
+	for _, vc := range res.VCs {
+		if vc.Kind == "assert" && vc.Cond.IsFalse() {
+			tr.Failed = append(tr.Failed, vc.Label)
+		}
+		if vc.Kind == "panic" || vc.Kind == "unwind" {
+			tr.Panic = vc.Info
+			tr.Recs = vc.Recs
+		}
+	}
+	switch {
+	case len(res.Ends) == 1:
+		tr.Completed = true
+		tr.Recs = res.Ends[0].Recs
+	case len(res.Ends) == 0 && tr.Panic == "" && len(tr.Failed) == 0:
+		tr.AssumeFail = true
+	}
+	return tr
 }
